@@ -1,5 +1,8 @@
 """C14 — formulas at their cell with A1 text (token-encoded formats: xlsb part).
 
+stored-text formats (xlsx, ods): tla/fmla/StoredFormula.tla, MC_StoredFormula, Trace_StoredFormula
+(harness/src/props/stored_formula.rs), run after the token-encoded parts below.
+
 leg 0  tla/fmla/Ptg.tla: formula trees, Rpn(tree) (writer), Render(tree) (Ideal, from the statement)
        and Parse(tokens) = the offset-stack machine of parse_formula (src/xlsb/mod.rs) over symbol
        sequences; TLC checks Parse(Rpn(t)) = Render(t) for every tree of MC_Ptg_<profile>.cfg.
@@ -64,4 +67,23 @@ def run(ctx):
     m = importlib.util.module_from_spec(sp)
     sp.loader.exec_module(m)
     m.run(ctx)
+    # stored-text formats (xlsx, ods): tla/fmla/StoredFormula.tla
+    ctx.rules.append(
+        "MC_StoredFormula: xlsx / ods documents over far-apart positions (every assignment of absent / constant / "
+        "formula with / without cached value), the first formula carrying every text of up to MaxChars characters "
+        "over XML-special, blank, quote and non-ASCII classes in every escaping form of the format (<f> element "
+        "text incl. CDATA; table:formula attribute); worksheet_formula compared by absolute position; "
+        "Trace_StoredFormula validates random larger documents with realistic formula texts")
+    r = ctx.tlc("fmla", "MC_StoredFormula", ctx.pick("MC_StoredFormula_quick.cfg", "MC_StoredFormula_thorough.cfg"),
+                workers=ctx.pick(6, 12), timeout=ctx.pick(600, 3000), xmx=ctx.pick("4g", "12g"))
+    if "REPLAY" in r["tags"]:
+        ctx.replay("stored_formula", r["tags"]["REPLAY"])
+    trace = ctx.work + "/stored_formula_trace.ndjson"
+    ctx.cvh(["drive", "stored_formula", "--out", trace, "--n", ctx.pick(150, 3000)])
+    v = ctx.validate_trace("fmla", "Trace_StoredFormula", "Trace_StoredFormula.cfg", trace, timeout=ctx.pick(600, 3000))
+    if v["accepted"]:
+        ctx.traces += 1
+        ctx.extra["stored_formula_events_validated"] = v["events"]
+    else:
+        ctx.fail("trace-rejected:Trace_StoredFormula", {"kind": "trace", "trace": trace, "info": v["info"], "tlc_output": v["out"]})
     ctx.families_leg("fmla")
